@@ -15,7 +15,7 @@ package evm
 //@   flag noframe
 //@   flag pure=GetMsgs,GetFrom,GetAccount,GetSequence,UnpackTxData,GetNonce,Wrapf,Wrap
 //@   flag havoc=SetAccount
-//@   before[C19.isd.exact] SetSequence requires res_GetNonce_0 == res_GetSequence_0 && (arg0 == res_GetSequence_0 + 1 || res_GetSequence_0 == 18446744073709551615)
+//@   before[C19.isd.exact] SetSequence requires res_GetNonce_0 == res_GetSequence_0 && (arg1 == res_GetSequence_0 + 1 || res_GetSequence_0 == 18446744073709551615)
 //@   before[C19.isd.set]   SetAccount requires defined(res_SetSequence_0)
 //@ loop #1
 //@   invariant true
